@@ -27,6 +27,7 @@ type vfYieldPlan struct {
 	ring    []int32
 	visited [1024]atomic.Uint32
 	hook    func(n int)
+	slow    map[int]time.Duration // extra fixed delay at these points, whatever the mode
 }
 
 var vfPlan atomic.Pointer[vfYieldPlan]
@@ -55,6 +56,9 @@ func vfYield(n int) {
 	}
 	if p.hook != nil {
 		p.hook(n)
+	}
+	if d, ok := p.slow[n]; ok {
+		time.Sleep(d)
 	}
 	switch p.mode {
 	case "random":
